@@ -93,4 +93,93 @@ def oracle_c01(ctx, shape, info, rows_by_phase, durations, opts, df, sysobj):
                       info={"row": name, "phase": ph, "kind": kind})
 
 
-ORACLES = {"c01": oracle_c01}
+def oracle_c02(ctx, shape, info, rows_by_phase, durations, opts, df, sysobj):
+    ta = 25.0
+    for ph, rows in rows_by_phase.items():
+        if ph not in ([""] + list(durations)):
+            continue
+        src_p, load_p, losses = [], [], []
+        for nd in shape["nodes"]:
+            name, kind = nd["name"], nd["kind"]
+            r, P = rows[name], info[name]["P"]
+            inf = {"row": name, "phase": ph, "kind": kind}
+            p, l, e = r["pwr"], r["loss"], r["eff"]
+            losses.append(l)
+            if kind == "Source":
+                src_p.append(p)
+                pol = spec.keeps_polarity(kind, P, None, r["iout"])
+                ctx.check("power-minus-loss=handed-on", Implies(And(pol, Ge(P["vo"], 0.0)), Eq(p - l, Abs(r["vout"]) * r["iout"])), info=inf)
+                ctx.check("loss-range", Implies(pol, And(Ge(l, 0.0), Le(l, p))), info=inf)
+                continue
+            if kind in spec.LOADS:
+                cons = Abs(r["vin"]) * r["iin"]
+                if P["loss"]:
+                    ctx.check("load-loss-is-consumption", And(Eq(l, cons), IsZero(p)), info=inf)
+                else:
+                    ctx.check("load-power-is-consumption", And(Eq(p, cons), IsZero(l)), info=inf)
+                    load_p.append(p)
+            else:
+                rs_sel = None
+                if kind == "PMux":
+                    _, rs_sel, _, _ = sel_terms(info, name, rows)
+                pol = spec.keeps_polarity(kind, P, r["vin"], r["iout"], rs_sel=rs_sel)
+                ctx.check("power=vin*iin", Eq(p, Abs(r["vin"]) * r["iin"]), info=inf)
+                ctx.check("power-minus-loss=handed-on", Implies(pol, Eq(p - l, Abs(r["vout"]) * r["iout"])), info=inf)
+                ctx.check("loss-range", Implies(pol, And(Ge(l, 0.0), Le(l, p))), info=inf)
+                ctx.check("efficiency", Implies(And(pol, Gt(p, 0.0)), And(Eq(e * p, 100.0 * (p - l)), Ge(e, 0.0), Le(e, 100.0))), info=inf)
+            if "tr" in r:
+                heat = p if (kind in spec.LOADS and not P["loss"]) else l
+                ctx.check("temp-rise", Eq(r["tr"], Abs(P.get("rt", 0.0)) * heat), info=inf)
+                ctx.check("peak-temp", Eq(r["tp"], (opts.get("_ta") if opts.get("_ta") is not None else ta) + r["tr"]), info=inf)
+        tot = rows["System total"]
+        ctx.check("total-power=sum-of-sources", Eq(tot["pwr"], Sum(src_p)), info={"phase": ph})
+        ctx.check("total-loss=sum-of-losses", Eq(tot["loss"], Sum(losses)), info={"phase": ph})
+        # system balance: telescoping over the tree; hypotheses are the per-row identities (each discharged above as its
+        # own obligation) plus distributivity instances mul(a, b+c) = mul(a,b)+mul(a,c), which are valid in the reals
+        hyps = []
+        allpol = []
+        for nd in shape["nodes"]:
+            name, kind = nd["name"], nd["kind"]
+            r, P = rows[name], info[name]["P"]
+            if kind in spec.LOADS:
+                continue
+            rs_sel = None
+            if kind == "PMux":
+                _, rs_sel, _, _ = sel_terms(info, name, rows)
+            allpol.append(spec.keeps_polarity(kind, P, r.get("vin"), r["iout"], rs_sel=rs_sel))
+            if kind == "Source":
+                allpol.append(Ge(P["vo"], 0.0))
+            kids = sysh.children_of(shape, name)
+            a = Abs(r["vout"])
+            hyps.append(Eq(r["pwr"] - r["loss"], a * r["iout"]))
+            terms = []
+            for c in kids:
+                rc = rows[c]
+                if info[c]["kind"] == "PMux" and len(info[c]["parents"]) > 1:
+                    sel, _ = sysh.mux_selected(info, c, rows)
+                    k = info[c]["parents"].index(name)
+                    cur = Ite(sel[k], rc["iin"], 0.0)
+                else:
+                    cur = rc["iin"]
+                terms.append(a * cur)
+                # what the child reports as consumed equals |Vout(parent)| * its share of the current
+                consumed = rc["loss"] if (info[c]["kind"] in spec.LOADS and info[c]["P"]["loss"]) else rc["pwr"]
+                if info[c]["kind"] == "PMux" and len(info[c]["parents"]) > 1:
+                    pass
+                else:
+                    hyps.append(Eq(consumed, a * cur))
+            hyps.append(Eq(a * child_current(info, shape, name, rows), Sum(terms)))
+        for nd in shape["nodes"]:
+            if nd["kind"] == "PMux" and len(info[nd["name"]]["parents"]) > 1:
+                c = nd["name"]
+                sel, none = sysh.mux_selected(info, c, rows)
+                tot_in = Sum([Abs(rows[p]["vout"]) * Ite(sel[k], rows[c]["iin"], 0.0) for k, p in enumerate(info[c]["parents"])])
+                hyps.append(Eq(rows[c]["pwr"], tot_in))
+        for h in hyps:  # every hypothesis of the telescoping argument is itself an obligation
+            ctx.check("balance-hypothesis", Implies(And(*allpol), h), info={"phase": ph})
+        balance = Eq(Sum(src_p), Sum(load_p) + Sum(losses))
+        ctx.check("system-balance", Implies(And(*allpol, *hyps), balance), info={"phase": ph})
+        ctx.check("total-efficiency<=100", Implies(And(*allpol), Le(tot["eff"], 100.0)), info={"phase": ph})
+
+
+ORACLES = {"c01": oracle_c01, "c02": oracle_c02}
